@@ -119,6 +119,33 @@ PROPS["C09"] = {
     "technique": "deterministic simulation: seeded baton scheduler + tape-placed process death in metadata/index flushes; name<->ID bijection ledger across incarnations",
 }
 
+PROPS["C03"] = {
+    "harness": "mdata", "level": "exploration", "per_proc": 80, "proc_timeout": 900,
+    "quick": {"runs": 3000, "budget_s": 300},
+    "thorough": {"runs": 150000, "budget_s": 1700, "shrink_runs": 300, "shrink_timeout": 600},
+    "rule": "Each run: one data family with the real metric-data merger; 4-12 operations out of flush (a generated file: 1-3 metrics, a subset of six fields of all types sum/min/max/last/first/histogram, slot range narrow / wide / random inside 0..39, 1-6 series out of ids around the 65536 boundaries, per (series, field) optionally no data, per slot optionally no value, integer values) written through the real metricsdata flusher, Family.Compact and the background compaction tick (compaction threshold 0/2/3, max output file size 0/200/1500 bytes so outputs split), optionally a reader task holding a snapshot across the compaction under a seeded schedule. After every operation every block of the current version is decoded with the real reader and compared cell by cell (metric, series, field, slot) with the reference model.",
+    "fault_kinds": ["compaction-changed-files"],
+    "real": ["tsdb/tblstore/metricsdata (flusher, reader, data scanner, merger, series merger, field reader)", "aggregation/down_sampling_agg", "kv compaction job and compact flusher", "pkg/encoding TSD/XOR/fixed-offset codecs"],
+    "stub": [],
+    "assumptions": COMMON_ASSUME + ["values are integers so float sums are exact in any order"],
+    "design_ref": "5/C03",
+    "level_text": "Seeded exploration of flush/compaction histories on the real metric data files with a naive cell-level reference model; readers holding snapshots run concurrently with the compaction goroutine.",
+    "technique": "deterministic simulation: generated flush/compact histories + seeded interleaving of snapshot readers with the compaction task; cell-level reference model",
+}
+PROPS["C04"] = {
+    "harness": "mdata", "level": "exploration", "per_proc": 80, "proc_timeout": 900,
+    "quick": {"runs": 3000, "budget_s": 300},
+    "thorough": {"runs": 150000, "budget_s": 1700, "shrink_runs": 300, "shrink_timeout": 600},
+    "rule": "Each run: a source store of 10 s interval (day calculator, segment 2000-01-01 / 03 / 31, families = hours 0, 5, 23) and target stores of 5 min (month calculator) and/or 1 h (year calculator) under the directory names the rollup code parses, all in one store manager. 6-15 operations: flush a generated file (as C03, slots 0..359) into a source family, ForceRollup, two overlapping rollup triggers, background tick (compaction + rollup), compaction of a source family, clean close+reopen; optionally process death at a file-system seam operation during rollup/tick operations followed by restart and rollup again. Whenever no rollup entry is pending, every target family is decoded and compared with the aggregate of exactly those source slots whose timestamps fall into each target slot (computed from timestamps, independently of the calculators); sum fields expose double application as 2x.",
+    "fault_kinds": ["crash@write", "crash@sync", "overlapping-rollup-trigger", "close-reopen"],
+    "real": ["kv/family_rollup.go, kv/version rollup bookkeeping, kv flusher (rollup registration)", "metricsdata merger in rollup mode + aggregation down sampling", "pkg/timeutil calculators", "kv store manager"],
+    "stub": [],
+    "assumptions": COMMON_ASSUME + ["process time zone is UTC (the supervisor sets TZ=UTC)"],
+    "design_ref": "5/C04",
+    "level_text": "Seeded exploration of flush / rollup / compaction / reopen / crash histories over real source and target stores; timestamp-based reference aggregate with an exactly-once ledger through sum fields.",
+    "technique": "deterministic simulation: generated histories with tape-placed process death during rollup, seeded interleaving of rollup and compaction goroutines; timestamp-based reference model",
+}
+
 NOT_APPLICABLE = {
     "C13": "pure arithmetic on (timestamp, interval): no schedule, clock, fault or crash point in the quantifier for a simulator to own; its code runs inside the C04/C07/C11 harnesses",
     "C14": "encode/decode are pure functions; pooled-object reuse is owned by the simulator only as a nondeterminism source of other harnesses, not as a fault of this property",
